@@ -529,6 +529,9 @@ def callProg (directed : Bool) (c : String) : Option (Prog Nat Nat String) :=
   | some "F" => some ((Sync.query (n 1) (fun a => if directed then hasKey a.out (n 2) else hasKey a.out (n 2) || hasKey a.inn (n 2))).bind fun b => .done (b01 b))
   | some "i" => some ((iterAll (n 1) (if directed then (·.out) else fun a => a.out ++ a.inn) 64 0 []).bind fun l => .done (showList l))
   -- traversals running concurrently with mutators: B/D = bfs/dfs search for key b from a, T = the same transposed, P = preorder
+  -- a node that exists only in the calling thread is made / its only handle dropped: no lock event, no store change
+  | some "m" => some (.done "ok")
+  | some "k" => some (.done "ok")
   | some "B" => some ((Sync.bfsProg (if directed then (·.out) else fun a => a.out ++ a.inn) (some (n 2)) 4096 none [n 1] [n 1]).bind fun r => .done (showOpt r))
   | some "D" => some ((Sync.dfsProg (if directed then (·.out) else fun a => a.out ++ a.inn) (some (n 2)) 4096 [(n 1, 0)] [n 1]).bind fun r => .done (showOpt r))
   | some "T" => some ((Sync.bfsProg (·.inn) (some (n 2)) 4096 none [n 1] [n 1]).bind fun r => .done (showOpt r))
